@@ -384,11 +384,12 @@ def mixed_expansions(rep, rng):
             rep.violation(f"MFPCA.fit with mixed univariate expansions raised {type(e).__name__}: {e}"[:300],
                           {"expansions": expansions, "values": [C.hexf(np.asarray(parts[j][0].values)) for j in idx]})
             continue
-        if float(np.max(np.abs(S.mean(axis=0)))) > 1e-8 * max(1.0, float(np.max(np.abs(S)))):
-            continue            # scores not centred: the orthonormality clause is finding F16's territory (decided in the main run)
+        # scores not exactly centred (PACE scores of the UFPCA expansions): the open finding F16 perturbs orthonormality at the
+        # 1e-7..1e-4 level there (decided in the main run) — a coarse threshold still separates a dropped Gram block (> 0.3)
+        centred = float(np.max(np.abs(S.mean(axis=0)))) <= 1e-8 * max(1.0, float(np.max(np.abs(S))))
         K = len(E[0])
         G = sum(np.array([[np.trapz(E[p][j] * E[p][k], parts[idx[p]][1]) for k in range(K)] for j in range(K)]) for p in range(len(E)))
-        if not np.all(np.isfinite(G)) or np.max(np.abs(G - np.eye(K))) > 1e-5:
+        if not np.all(np.isfinite(G)) or np.max(np.abs(G - np.eye(K))) > (1e-5 if centred else 0.05):
             rep.violation(f"MFPCA with mixed univariate expansions {[e['method'] for e in expansions]}: the eigenfunctions are not orthonormal for "
                           f"the sum over components of the L2 inner products (Gram matrix deviates from the identity by "
                           f"{np.max(np.abs(G - np.eye(K))):.3g})",
